@@ -828,7 +828,7 @@ class AggregateAssignmentMatrixGenerator:
                 count_by_existence[existence] += self.count_matrices(n_src_conn, n_tgt_conn, existence)
 
         if max_by_existence:
-            return max(count_by_existence.values())
+            return max(count_by_existence.values(), default=0)
         return sum(count_by_existence.values())
 
     def get_matrices_by_n_conn(self, n_src_conn, n_tgt_conn, existence: NodeExistence = None):
